@@ -33,6 +33,10 @@ func verifSchemaSA() *schema.BodySchema {
 			"mp":   verifOpt(schema.LiteralType{Type: cty.Map(cty.String)}),
 			"obj":  verifOpt(schema.LiteralType{Type: cty.Object(map[string]cty.Type{"a": cty.String, "b": cty.Number})}),
 			"tup":  verifOpt(schema.LiteralType{Type: cty.Tuple([]cty.Type{cty.String, cty.Number})}),
+			"dynobj": verifOpt(schema.LiteralType{Type: cty.Object(map[string]cty.Type{"alpha": cty.DynamicPseudoType, "beta": cty.String})}),
+			"dyntup": verifOpt(schema.LiteralType{Type: cty.Tuple([]cty.Type{cty.DynamicPseudoType, cty.String})}),
+			"adyn":   verifOpt(schema.AnyExpression{OfType: cty.Object(map[string]cty.Type{"alpha": cty.DynamicPseudoType, "beta": cty.Number})}),
+			"lobj":   verifOpt(schema.LiteralType{Type: cty.List(cty.Object(map[string]cty.Type{"k": cty.String, "l": cty.Number}))}),
 			"kw":   verifOpt(schema.Keyword{Keyword: "foo", Name: "kw"}),
 			"lvs":  verifOpt(schema.LiteralValue{Value: cty.StringVal("foo")}),
 			"lvb":  verifOpt(schema.LiteralValue{Value: cty.True}),
@@ -63,16 +67,19 @@ func verifSchemaSA() *schema.BodySchema {
 		},
 		Blocks: map[string]*schema.BlockSchema{
 			"blk": {
-				Labels: []*schema.LabelSchema{{Name: "name"}},
+				Labels:                 []*schema.LabelSchema{{Name: "name", SemanticTokenModifiers: lang.SemanticTokenModifiers{"m-label"}}},
+				SemanticTokenModifiers: lang.SemanticTokenModifiers{"m-blk1", "m-blk2"},
 				Body: &schema.BodySchema{
 					Attributes: map[string]*schema.AttributeSchema{
-						"inner": verifOpt(schema.LiteralType{Type: cty.String}),
-						"req":   {Constraint: schema.LiteralType{Type: cty.Number}, IsRequired: true},
+						"inner": {Constraint: schema.LiteralType{Type: cty.String}, IsOptional: true, SemanticTokenModifiers: lang.SemanticTokenModifiers{"m-inner"}},
+						"req":   {Constraint: schema.LiteralType{Type: cty.Number}, IsRequired: true, SemanticTokenModifiers: lang.SemanticTokenModifiers{"m-req"}},
 					},
 					Blocks: map[string]*schema.BlockSchema{
-						"nested": {Body: &schema.BodySchema{Attributes: map[string]*schema.AttributeSchema{
-							"deep": verifOpt(schema.AnyExpression{OfType: cty.String}),
-						}}},
+						"nested": {SemanticTokenModifiers: lang.SemanticTokenModifiers{"m-nested"},
+							Body: &schema.BodySchema{Attributes: map[string]*schema.AttributeSchema{
+								"deep":  {Constraint: schema.AnyExpression{OfType: cty.String}, IsOptional: true, SemanticTokenModifiers: lang.SemanticTokenModifiers{"m-deep"}},
+								"deep2": {Constraint: schema.LiteralType{Type: cty.Number}, IsOptional: true, SemanticTokenModifiers: lang.SemanticTokenModifiers{"m-deep2"}},
+							}}},
 					},
 				},
 			},
@@ -98,6 +105,8 @@ func verifTargets() reference.Targets {
 	return reference.Targets{
 		{Addr: lang.Address{lang.RootStep{Name: "var"}, lang.AttrStep{Name: "bar"}}, ScopeId: lang.ScopeId("variable"), Type: cty.Number,
 			RangePtr: &hcl.Range{Filename: "vars.tf", Start: hcl.Pos{Line: 3, Column: 1, Byte: 20}, End: hcl.Pos{Line: 3, Column: 10, Byte: 29}}},
+		{Addr: lang.Address{lang.RootStep{Name: "var"}, lang.AttrStep{Name: "dyn"}}, ScopeId: lang.ScopeId("variable"), Type: cty.DynamicPseudoType,
+			RangePtr: &hcl.Range{Filename: "vars.tf", Start: hcl.Pos{Line: 5, Column: 1, Byte: 40}, End: hcl.Pos{Line: 5, Column: 10, Byte: 49}}},
 		{Addr: lang.Address{lang.RootStep{Name: "var"}, lang.AttrStep{Name: "foo"}}, ScopeId: lang.ScopeId("variable"), Type: cty.String,
 			RangePtr: &hcl.Range{Filename: "vars.tf", Start: hcl.Pos{Line: 1, Column: 1, Byte: 0}, End: hcl.Pos{Line: 1, Column: 10, Byte: 9}}},
 	}
@@ -129,7 +138,8 @@ func verifSchemaSB() *schema.BodySchema {
 							"size":   {Constraint: schema.AnyExpression{OfType: cty.Number}, IsRequired: true},
 						},
 						Blocks: map[string]*schema.BlockSchema{
-							"rule": {Body: &schema.BodySchema{Attributes: map[string]*schema.AttributeSchema{"port": {Constraint: num, IsOptional: true}}}, MaxItems: 2},
+							"rule": {Body: &schema.BodySchema{Attributes: map[string]*schema.AttributeSchema{"port": {Constraint: num, IsOptional: true}},
+								Extensions: &schema.BodyExtensions{SelfRefs: true}}, MaxItems: 2},
 						},
 						DocsLink: &schema.DocsLink{URL: "https://example.com/aws"},
 						Detail:   "aws thing",
@@ -252,7 +262,7 @@ func verifSeedList() []verifSeed {
 		{"cobj-empty", "cobj = { }\n", 0},
 		{"cobj-partial", "cobj = {\n  a\n}\n", 0},
 		{"blk", "blk \"a\" {\n  inner = \"y\"\n  req = 1\n}\n", 0},
-		{"blk-nested", "blk \"a\" {\n  nested {\n    deep = \"z\"\n  }\n}\n", 0},
+		{"blk-nested", "blk \"a\" {\n  nested {\n    deep = \"z\"\n    deep2 = 2\n  }\n}\n", 0},
 		{"blk-nolabel", "blk {\n}\n", 0},
 		{"blk-partial-label", "blk \"a\n", 0},
 		{"blk-oneline", "nolabel { x = 1 }\n", 0},
@@ -265,6 +275,31 @@ func verifSeedList() []verifSeed {
 		{"heredoc", "str = <<EOT\nhello\nEOT\n", 0},
 		{"unterminated-call", "astr = f1( \"x\", \n", 0},
 		{"comment", "# c\nstr = \"x\" # t\n", 0},
+		// empty values: completion offers whole-value snippets
+		{"empty-obj", "obj = \n", 0},
+		{"empty-tup", "tup = \n", 0},
+		{"empty-dynobj", "dynobj = \n", 0},
+		{"empty-dyntup", "dyntup = \n", 0},
+		{"empty-adyn", "adyn = \n", 0},
+		{"empty-lobj", "lobj = \n", 0},
+		{"empty-cobj", "cobj = \n", 0},
+		{"empty-cmap", "cmap = \n", 0},
+		{"empty-ctup", "ctup = \n", 0},
+		{"empty-clist", "clist = \n", 0},
+		{"empty-astr", "astr = \n", 0},
+		// comments and line breaks inside expressions
+		{"ctup-comment", "ctup = [ /* c */ \"a\", 1 ]\n", 0},
+		{"ctup-linecomment", "ctup = [\n  \"a\", # c\n  1\n]\n", 0},
+		{"clist-comment", "clist = [ \"a\", /* c */ \"b\" ]\n", 0},
+		{"cobj-comment", "cobj = {\n  a = \"x\" # c\n  b = 1\n}\n", 0},
+		{"cmap-multiline", "cmap = {\n  k = \"v\"\n  l = \"w\"\n}\n", 0},
+		{"dyn-idx-multiline", "any = var.dyn[\n  0\n]\n", 0},
+		{"dyn-attr-multiline", "alst = [\n  var.\n    dyn.x\n]\n", 0},
+		{"dyn-steps", "any = var.dyn.a[ 1 ].b\n", 0},
+		{"any-idx-multiline", "any = var.foo[\n  0\n]\n", 0},
+		{"alst-multiline", "alst = [\n  var.foo,\n  var.\n]\n", 0},
+		{"astr-func-multiline", "astr = f1(\n  var.foo\n)\n", 0},
+		{"amap-ref-multiline", "amap = {\n  k = var.foo\n}\n", 0},
 		// SB
 		{"res-aws", "res \"aws\" \"a\" {\n  marker = \"x\"\n  size = 1\n}\n", 2},
 		{"res-aws-rule", "res \"aws\" \"a\" {\n  size = 1\n  rule {\n    port = 80\n  }\n}\n", 2},
